@@ -270,8 +270,7 @@ class FuzzyUnion(SameArrayShapeMixin, Command):
             arrays, lineno=self.argument_lines.get("InFieldNames")
         )
 
-        result = sum(arrays)
-        result /= float(len(arrays))
+        result = sum(arrays) / float(len(arrays))  # (true division cannot be done in place on integer data)
 
         return insure_fuzzy(result, FUZZY_MIN, FUZZY_MAX)
 
@@ -306,7 +305,7 @@ class FuzzyWeightedUnion(SameArrayShapeMixin, Command):
             # Not in place: adding to a plain ndarray in place would discard the missing cells of a later (masked) input
             result = result + arr * weight
 
-        result /= sum(weights)
+        result = result / sum(weights)  # (true division cannot be done in place on integer data)
 
         return insure_fuzzy(result, FUZZY_MIN, FUZZY_MAX)
 
